@@ -35,7 +35,9 @@ def run_lookup_job(prog, job):
     A = SymArena(N)
     for c in A.inv(): eng.solver.add(c)
     st = State()
-    acell = st.new_cell(A.value())
+    cap0 = z3.BitVec('cap0', 64)               # any capacity >= count(): a full Vec (capacity == len) is as reachable as one with room
+    eng.solver.add(z3.UGE(cap0, N), z3.ULT(cap0, BV64(1 << 40)))
+    acell = st.new_cell(A.value(cap=S(cap0, 'usize')))
     pre = View(A.value())
     aref = Ref(acell, ())
     res = new_result(job)
@@ -67,7 +69,8 @@ def run_lookup_job(prog, job):
     def mkv(name):
         return lambda m, failed: {'kind': 'custom', 'module': 'lookups', 'confirm': 'confirm', 'checks': failed, 'op': name, 'N': N, 'cfg': 'dev',
                                   'pre': A.model_dict(m), 'role': name,
-                                  'args': {'qi': m.eval(qi, model_completion=True).as_long(), 'pos': m.eval(pos, model_completion=True).as_long()}}
+                                  'args': {'qi': m.eval(qi, model_completion=True).as_long(), 'pos': m.eval(pos, model_completion=True).as_long(),
+                                           'cap0': m.eval(cap0, model_completion=True).as_long()}}
 
     def run(fn, args, name, obl):
         for o in call_all(eng, st, fn, args):
